@@ -150,6 +150,9 @@ type SimConfig struct {
 	// KeepHeap: do not let unknown calls havoc anything (used by rules that
 	// only look at values, not at heap state).
 	NoHavoc bool
+	// MaxVisits: how often a block may be entered per activation (default 3:
+	// two concrete loop iterations, then one with widened loop variables).
+	MaxVisits int
 	// PanicAtDyncall adds, for every call through a function value (handlers
 	// such as c.Next()), the path on which that call panics: the deferred
 	// calls registered so far run and the function exits abnormally.
@@ -189,6 +192,9 @@ func (p *Program) Simulate(fn *ssa.Function, cfg SimConfig, onPath func(*PathRes
 	}
 	if cfg.Pure == nil {
 		cfg.Pure = defaultPure
+	}
+	if cfg.Inline == nil {
+		cfg.Inline = inlineHelpersOf(fn)
 	}
 	s := &Sim{P: p, Cfg: cfg, onPath: onPath}
 	st := &State{heap: map[string]*Term{}, heapLoc: map[string]*Term{}, epoch: map[string]int{}, fresh: map[string]bool{},
@@ -247,7 +253,11 @@ func (s *Sim) enterBlock(fr *Frame, st *State, b, pred *ssa.BasicBlock, k cont) 
 	}
 	fr.visits[b]++
 	v := fr.visits[b]
-	if v > 2 {
+	maxV := s.Cfg.MaxVisits
+	if maxV == 0 {
+		maxV = 3
+	}
+	if v > maxV {
 		s.LoopCuts++
 		return
 	}
@@ -267,7 +277,7 @@ func (s *Sim) enterBlock(fr *Frame, st *State, b, pred *ssa.BasicBlock, k cont) 
 				break
 			}
 			t := s.val(fr, st, phi.Edges[idx])
-			if v >= 2 && isLoopHeader(b) {
+			if v >= maxV && isLoopHeader(b) && !staticallyBounded(b) {
 				if last, ok := fr.lastPhi[phi]; ok && last.Key() != t.Key() {
 					// widen loop-carried values on the second visit
 					st.counter["widen"]++
@@ -292,6 +302,51 @@ func isLoopHeader(b *ssa.BasicBlock) bool {
 		}
 	}
 	return false
+}
+
+// staticallyBounded: the loop at header b runs a small constant number of times
+// (index < constant, or index < len of a fixed-size array literal); its iterations
+// are followed concretely instead of being widened.
+func staticallyBounded(b *ssa.BasicBlock) bool {
+	if len(b.Instrs) == 0 {
+		return false
+	}
+	iff, ok := b.Instrs[len(b.Instrs)-1].(*ssa.If)
+	if !ok {
+		return false
+	}
+	bo, ok := iff.Cond.(*ssa.BinOp)
+	if !ok || bo.Op != token.LSS {
+		return false
+	}
+	if c, ok := bo.Y.(*ssa.Const); ok && c.Value != nil {
+		return c.Int64() <= 2
+	}
+	if call, ok := bo.Y.(*ssa.Call); ok {
+		if bi, ok := call.Call.Value.(*ssa.Builtin); ok && bi.Name() == "len" {
+			if n, ok := fixedLen(call.Call.Args[0]); ok {
+				return n <= 2
+			}
+		}
+	}
+	return false
+}
+
+// fixedLen: v is a full slice of a fixed-size array allocated in this function.
+func fixedLen(v ssa.Value) (int64, bool) {
+	sl, ok := v.(*ssa.Slice)
+	if !ok || sl.Low != nil || sl.High != nil {
+		return 0, false
+	}
+	pt, ok := sl.X.Type().Underlying().(*types.Pointer)
+	if !ok {
+		return 0, false
+	}
+	at, ok := pt.Elem().Underlying().(*types.Array)
+	if !ok {
+		return 0, false
+	}
+	return at.Len(), true
 }
 
 func (s *Sim) uid(st *State, fr *Frame, in ssa.Instruction) string {
@@ -409,6 +464,9 @@ func (s *Sim) load(st *State, addr *Term, typ types.Type) *Term {
 			name = fmt.Sprintf("e%d", e)
 		}
 		v = &Term{Op: "init", Name: name, Args: []*Term{addr}, Type: typ}
+		if addr.Op == "global" && s.P.neverNilGlobal(addr.Obj) {
+			st.facts.Assume(eqTerm(v, nilTerm(typ)), false)
+		}
 	}
 	st.heap[key] = v
 	st.heapLoc[key] = addr
@@ -737,7 +795,7 @@ func (s *Sim) simInstrs(fr *Frame, st *State, b *ssa.BasicBlock, from int, k con
 				fr.env[x] = &Term{Op: "fld", Name: fld.Name(), Obj: fld, Type: x.Type(), Args: []*Term{base}}
 			}
 		case *ssa.IndexAddr:
-			fr.env[x] = &Term{Op: "ia", Type: x.Type(), Args: []*Term{s.val(fr, st, x.X), s.val(fr, st, x.Index)}}
+			fr.env[x] = &Term{Op: "ia", Type: x.Type(), Args: []*Term{sliceBase(s.val(fr, st, x.X)), s.val(fr, st, x.Index)}}
 		case *ssa.Index:
 			fr.env[x] = &Term{Op: "idx", Type: x.Type(), Args: []*Term{s.val(fr, st, x.X), s.val(fr, st, x.Index)}}
 		case *ssa.Lookup:
@@ -906,6 +964,23 @@ func (s *Sim) simInstrs(fr *Frame, st *State, b *ssa.BasicBlock, from int, k con
 	}
 }
 
+// sliceBase: element i of arr[:] (or arr[0:]) is element i of arr.
+func sliceBase(t *Term) *Term {
+	for t.Op == "slice" && len(t.Args) == 4 {
+		lo := t.Args[1]
+		if lo.Op == "none" {
+			t = t.Args[0]
+			continue
+		}
+		if v, ok := lo.IntVal(); ok && v == 0 {
+			t = t.Args[0]
+			continue
+		}
+		break
+	}
+	return t
+}
+
 func fieldOf(t types.Type, idx int) *types.Var {
 	if p, ok := t.Underlying().(*types.Pointer); ok {
 		t = p.Elem()
@@ -1007,6 +1082,9 @@ func (s *Sim) builtin(fr *Frame, st *State, x *ssa.Call, ev *Event) *Term {
 		if a[0].IsNil() {
 			return intTerm(0)
 		}
+		if n, ok := fixedLen(x.Call.Args[0]); ok && name == "len" {
+			return intTerm(n)
+		}
 		return &Term{Op: name, Type: x.Type(), Args: []*Term{a[0]}}
 	case "append":
 		if len(a) == 2 && a[1].IsNil() {
@@ -1014,8 +1092,9 @@ func (s *Sim) builtin(fr *Frame, st *State, x *ssa.Call, ev *Event) *Term {
 		}
 		return &Term{Op: "append", Type: x.Type(), Args: a}
 	case "copy":
+		ev.Result = &Term{Op: "sym", Name: "copy:" + s.uid(st, fr, x), Type: x.Type()}
 		s.emit(st, fr, ev)
-		return &Term{Op: "sym", Name: "copy:" + s.uid(st, fr, x), Type: x.Type()}
+		return ev.Result
 	case "close", "delete", "print", "println", "panic", "clear":
 		s.emit(st, fr, ev)
 		return nil
@@ -1156,4 +1235,55 @@ func (p *Program) dumpPaths(fn *ssa.Function, inlineDepth int) {
 		fmt.Printf("   => %s\n", strings.Join(rs, " ; "))
 	})
 	fmt.Printf("paths=%d pruned=%d loopcuts=%d overflow=%v\n", sim.Paths, sim.Pruned, sim.LoopCuts, sim.Overflow)
+}
+
+// semanticAtoms: unexported pike functions that rules match as events (their
+// internals are verified by their own rules); every other unexported function of
+// the analysed function's package is a helper and is simulated in place, so that
+// extracting or inlining a helper does not change a verdict.
+var semanticAtoms = map[string]bool{
+	"get": true, "initFromStore": true, "saveToStore": true, "getLRU": true, "byteSliceToString": true, "memhash": true,
+	"readUint32ToInt": true, "readUint64ToInt64": true, "readBytes": true, "uint32ToBytes": true, "uint64ToBytes": true,
+	"getBodyByAcceptEncoding": true, "shouldCompressed": true, "getCacheMaxAge": true, "requestIsPass": true, "getKey": true,
+	"getCacheStatus": true, "setCacheStatus": true, "getHTTPResp": true, "setHTTPResp": true, "setHTTPRespAge": true, "getHTTPRespAge": true,
+	"setHTTPCacheMaxAge": true, "getHTTPCacheMaxAge": true, "gzipFn": true, "brotliEncode": true, "doGzip": true, "doBrotli": true,
+	"doGunzip": true, "doBrotliDecode": true, "doLZ4Decode": true, "doSnappyDecode": true, "doZSTDDecode": true, "doLZ4Encode": true, "doZSTDEncode": true, "doSnappyEncode": true,
+	"getPriority": true, "newHTTPLRUCache": true, "newTargetPicker": true, "newProxyMid": true, "newTransport": true, "convertConfig": true, "convertConfigs": true,
+	"removeCache": true, "addCache": true, "getCache": true, "update": true, "generateURLRewriter": true, "mergeHeader": true, "cloneHeaderAndIgnore": true,
+	"addValidate": true, "addAlias": true, "newBadgerStore": true, "newRedisStore": true, "newMongoStore": true,
+}
+
+func isHelper(callee *ssa.Function) bool {
+	if callee == nil || callee.Blocks == nil || !isPikeFunc(callee) {
+		return false
+	}
+	if callee.Parent() != nil {
+		return false // function literals are handled by the rules that own them
+	}
+	obj := callee.Object()
+	if obj == nil || obj.Exported() {
+		return false
+	}
+	return !semanticAtoms[callee.Name()]
+}
+
+// inlineHelpersOf: simulate in place the unexported helper functions of the
+// package root belongs to (and util's error constructor).
+func inlineHelpersOf(root *ssa.Function) func(*ssa.Function, int) bool {
+	rp := fnPkg(root)
+	return func(callee *ssa.Function, depth int) bool {
+		if depth >= 4 {
+			return false
+		}
+		if inPkg(callee, "util") && callee.Name() == "NewError" {
+			return true
+		}
+		return isHelper(callee) && fnPkg(callee) == rp && callee != root
+	}
+}
+
+// orHelpers combines a rule's own inlining policy with the helper policy.
+func orHelpers(root *ssa.Function, f func(*ssa.Function, int) bool) func(*ssa.Function, int) bool {
+	h := inlineHelpersOf(root)
+	return func(callee *ssa.Function, depth int) bool { return f(callee, depth) || h(callee, depth) }
 }
